@@ -174,9 +174,104 @@ func r46AreaSumsEveryEdge(c *core.Ctx) {
 	c.Check(R, construct, f.Decl.Pos(), okc, "all n edges of the open ring are summed, the closing edge included", "Shoelace does not sum over every edge of the ring ("+why+"): the area depends on where the ring starts, and the smallest containing shell of a hole is picked by area")
 }
 
+// r46UniqueLeaderDecides: in matchInnersToPolygons a hole is attached early exactly when one shell leads the
+// containment count alone: the value compared with 1 is the number-of-winners result of FindLastKeyWithMaxValue
+// (its third result, named numWinners), and the polygon appended to is its first result (the leading key).
+func r46UniqueLeaderDecides(c *core.Ctx) {
+	const R = "R46"
+	f := c.Anchor(R, "snap.matchInnersToPolygons")
+	h := c.Anchor(R, "mapslicehelp.FindLastKeyWithMaxValue")
+	if f == nil || h == nil || f.SSA == nil {
+		return
+	}
+	construct := "unique-leader-decides/" + f.Name
+	res := h.Obj.Type().(*types.Signature).Results()
+	winIdx, keyIdx := -1, -1
+	for i := 0; i < res.Len(); i++ {
+		switch res.At(i).Name() {
+		case "numWinners":
+			winIdx = i
+		case "maxK":
+			keyIdx = i
+		}
+	}
+	if winIdx < 0 || keyIdx < 0 {
+		c.Unknown(R, construct, h.Decl.Pos(), "FindLastKeyWithMaxValue no longer has named results maxK / numWinners: the rule cannot tell its results apart")
+		return
+	}
+	var call *ssa.Call
+	for _, fn := range core.AllSSAFuncs(f.SSA) {
+		for _, b := range fn.Blocks {
+			for _, in := range b.Instrs {
+				if cl, ok := in.(*ssa.Call); ok && cl.Call.StaticCallee() != nil && cl.Call.StaticCallee().Origin() != nil && cl.Call.StaticCallee().Origin().Object() == h.Obj {
+					call = cl
+				} else if ok && cl.Call.StaticCallee() != nil && cl.Call.StaticCallee().Object() == h.Obj {
+					call = cl
+				}
+			}
+		}
+	}
+	if call == nil {
+		// the containment decision may live in a helper of package snap
+		for _, g := range sortedFuncs(c.P) {
+			if g.Pkg != f.Pkg || g.SSA == nil {
+				continue
+			}
+			for _, b := range g.SSA.Blocks {
+				for _, in := range b.Instrs {
+					if cl, ok := in.(*ssa.Call); ok && cl.Call.StaticCallee() != nil && strings.HasPrefix(cl.Call.StaticCallee().Name(), "FindLastKeyWithMaxValue") {
+						call = cl
+					}
+				}
+			}
+		}
+	}
+	if call == nil {
+		c.Bad(R, construct, f.Decl.Pos(), "no call of FindLastKeyWithMaxValue in the hole matching")
+		return
+	}
+	win := extractOf(call, winIdx)
+	key := extractOf(call, keyIdx)
+	okCmp := false
+	if win != nil {
+		for _, r := range *win.Referrers() {
+			if cmp, ok := r.(*ssa.BinOp); ok && cmp.Op == token.EQL && isConstInt(cmp.Y, 1) && cmp.X == win {
+				okCmp = true
+			}
+		}
+	}
+	// nothing else is compared with 1 to decide the early attachment
+	other := false
+	for i := 0; i < res.Len(); i++ {
+		if i == winIdx {
+			continue
+		}
+		if e := extractOf(call, i); e != nil {
+			for _, r := range *e.Referrers() {
+				if cmp, ok := r.(*ssa.BinOp); ok && (cmp.Op == token.EQL || cmp.Op == token.NEQ) && isConstInt(cmp.Y, 1) {
+					other = true
+				}
+			}
+		}
+	}
+	okKey := false
+	if key != nil {
+		for _, r := range *key.Referrers() {
+			if _, ok := r.(*ssa.IndexAddr); ok {
+				okKey = true
+			}
+			if _, ok := r.(*ssa.Return); ok {
+				okKey = true // handed back to the caller, which appends
+			}
+		}
+	}
+	c.Check(R, construct, call.Pos(), okCmp && !other && okKey, "numWinners == 1 decides, the hole goes to polygons[maxK]", "the early attachment of a hole is not decided by `exactly one shell leads the count` (the third result of FindLastKeyWithMaxValue) or does not go to the leading shell (its first result)")
+}
+
 func r46RingContainsExamineAll(c *core.Ctx) {
 	const R = "R46"
 	r46AreaSumsEveryEdge(c)
+	r46UniqueLeaderDecides(c)
 	f := c.Anchor(R, "snap.ringContains")
 	if f == nil {
 		return
